@@ -93,7 +93,8 @@ EditKeys == {"none", "char", "bs", "left", "right"}
 
 CmpLine(k) ==
     \/ Focus \in {"ALL", "C16", "C14"}
-    \/ Focus \in {"C05", "C04", "C17", "C02"} /\ k \in EditKeys
+    \/ Focus = "C05"        \* the edited line after every key: recall and completion replace it, cursor at the end
+    \/ Focus \in {"C04", "C17", "C02"} /\ k \in EditKeys
     \/ Focus = "C10" /\ k \in {"up", "down"}
     \/ Focus = "C11" /\ k = "tab"
     \/ Focus = "C01" /\ k = "enter"
